@@ -392,11 +392,10 @@ impl Responder {
             if let ConfirmationStatus::Rejected(_) = status {
                 rejected.push(uuid);
             } else {
-                // DISCUSS: What if the tower was down for some time and was later force updated while this penalty got on-chain?
-                // Sending it will yield `ConfirmationStatus::IrrevocablyResolved` which would panic here.
-                // We might want to replace `ConfirmationStatus::IrrevocablyResolved` variant with
-                // `ConfirmationStatus::ConfirmedIn(height - IRREVOCABLY_RESOLVED)
-                dbm.update_tracker_status(uuid, &status).unwrap();
+                // The node may answer `ConfirmationStatus::IrrevocablyResolved` (already in chain), which cannot be
+                // stored. As in `handle_reorged_txs`, keep waiting for the confirmation to show up in a block.
+                dbm.update_tracker_status(uuid, &ConfirmationStatus::InMempoolSince(height))
+                    .unwrap();
             }
         }
 
